@@ -63,6 +63,7 @@ type Contract struct {
 	NoCallOut       []string
 	MapInserts      map[string][]*Clause
 	MapStores       []MapStoreRule // function level: obligation at every store into a map of the given type
+	OnCalls         []MapStoreRule // function level: obligation before every call of the named function (Type = its short name)
 	ChanPubs        map[string][]*Clause
 	Published       map[string][]string
 	Line            int
@@ -271,6 +272,12 @@ func parseContracts(path string) ([]*Contract, []*SpecDef, error) {
 				cur.MapInserts = map[string][]*Clause{}
 			}
 			cur.MapInserts[f] = append(cur.MapInserts[f], last)
+		case "oncall":
+			// oncall <function short name> [label] <expr over the caller's locals>: checked in the caller's state
+			// right before every call of that function made by this function
+			f, r2 := splitWord(rest)
+			last = mk(r2)
+			cur.OnCalls = append(cur.OnCalls, MapStoreRule{Type: f, Clause: last})
 		case "mapstore":
 			// mapstore <map type without spaces> [label] <expr over at (the key), value, prev, had and the locals>: checked at every store
 			// into a map of that type executed by this function (inlined closures included); prev is the value
@@ -569,6 +576,9 @@ func parseContracts(path string) ([]*Contract, []*SpecDef, error) {
 			all = append(all, ls...)
 		}
 		for _, r := range c.MapStores {
+			all = append(all, r.Clause)
+		}
+		for _, r := range c.OnCalls {
 			all = append(all, r.Clause)
 		}
 		for _, ls := range c.ChanPubs {
